@@ -143,7 +143,13 @@ def check_text(case, stats):
         gh.parse(case["prev"], case.get("prev_default", "en"), stop=True)
         gh.parse(case["prev"], case.get("prev_default", "en"), parser=parser, stop=True)
         gh.parse(case["prev"], case.get("prev_default", "en"), parser=parser, stop=False)
-    real = gh.parse(text, dflt, parser=parser, stop=False)
+    matcher = None
+    if case.get("same_matcher_prevs"):
+        # ONE matcher object for documents of several dialects (each names its own in a header), as a long-lived service keeps it
+        matcher = gh.TokenMatcher(dflt)
+        for pv in case["same_matcher_prevs"]:
+            gh.parse(pv, dflt, matcher=matcher)
+    real = gh.parse(text, dflt, parser=parser, stop=False, matcher=matcher)
     n = len(split_lines(text))
     raw = split_lines(text)
     tagrun = any(raw[i].lstrip().startswith("@") and (raw[i + 1].strip() == "" or raw[i + 1].lstrip()[:1] in "#@") for i in range(len(raw) - 1))
@@ -206,6 +212,16 @@ def unit_prev_combos(a):
     sweep(stats, [{"sub": "text", "label": "same-document-again", "prev": many, "text": many},
                   {"sub": "text", "label": "same-document-again", "prev": many, "text": "Feature: f\n bad 3\n"},
                   {"sub": "text", "label": "same-document-again", "prev": many + " @a b\n", "text": "Feature: f\n" + " ok\n" * 0 + " bad 0\n bad 1\n"}], check_text)
+    from .c15 import shared_keyword_pairs, doc_using
+    pairs = shared_keyword_pairs()
+    stats.notes["dialect_pairs_sharing_a_keyword_with_another_meaning"] = len(pairs)
+
+    def across():
+        for d1, d2, k in pairs:
+            for x, y in ((d1, d2), (d2, d1)):
+                yield {"sub": "text", "label": "one-matcher-across-dialects", "same_matcher_prevs": [doc_using(x, k)], "text": doc_using(y, k)}
+                yield {"sub": "text", "label": "one-matcher-across-dialects", "same_matcher_prevs": [doc_using(x, k), doc_using(y, k)], "text": doc_using(x, k), "default": y}
+    sweep(stats, across(), check_text)
     prevs = ["Feature: f\n Scenario: s\n  Given x\n   \"\"\"\n   open\n", "Feature: f\n @t\n", "garbage\nFeature: f\n", "Feature: f\n" + "".join(" bad %d\n" % i for i in range(12)),
              "Feature: f\n Scenario: s\n  Given x\n   | a | b |\n   | c |\n @t\n\n Scenario: t\n", "Feature: ok\n"]
     sweep(stats, [{"sub": "formatter-reuse", "prev": pv, "text": nx, "stop": st_} for pv in prevs for nx in nexts for st_ in (False, True)], check_formatter_reuse)
